@@ -242,6 +242,48 @@ def h_crash_in_receive(I):
     return [outcome]
 
 
+def h_crash_in_replay(I, nlost, nslots):
+    """A is killed at a solver-chosen journal slot while it services B's ResendRequest (replay of
+    nlost messages lost in a break); what A wrote before reaches B or not; restart, recover."""
+    w = RWorld(I)
+    w.logon(0)
+    for _ in range(nlost):
+        w.send("A")
+    w.deliver(w.A, w.B, I.choice("delivered_before_break", nlost))
+    w.brk()
+    w.connect()
+    w.raw_send_logon()
+    w.deliver(w.A, w.B)       # B: Logon too high -> Logon reply + ResendRequest
+    w.deliver(w.B, w.A, 1)    # A: Logon reply
+    slot = 1 + I.choice("journal_slot", nslots)
+
+    def crashing_replay():
+        w.db.mod.slot = 0
+        w.db.mod.crash_at = slot
+        try:
+            c07.World.deliver(w, w.B, w.A, 1)
+            return "returned"
+        except fakesql.Crash:
+            return "crashed"
+        finally:
+            w.db.mod.crash_at = None
+    outcome = w._u(crashing_replay)
+    I.goal("crashed" if outcome == "crashed" else "replay-completed")
+    if I.choice("frames_written_before_the_kill_reach_B", 2):
+        w.deliver(w.A, w.B)
+    live, new = w.restart("A")
+    I.check(new[1] == live[1], "restored next outbound number differs from the one the killed process held")
+    w.brk()
+    w.logon(I.choice("recovery_order", 3))
+    w.send("A")
+    w.send("B")
+    w.quiesce()
+    w.check(I)
+    w.check_reuse(I)
+    I.goal("done")
+    return [outcome, len(w.B.app)]
+
+
 def cells(tier):
     quick = tier == "quick"
     out = []
@@ -263,6 +305,11 @@ def cells(tier):
     out.append(Cell("crash-in-send", h_crash_in_send,
                     dict(crash_point="inside the journal write (symbolic statement / commit slot 1..8) / after the transport write / after the drain",
                          in_flight="the frame written before the crash reaches the peer or not (symbolic)"), goals=["done", "crashed", "send-completed"], budget_s=2400))
+    for nl in ((2,) if quick else (2, 3)):
+        out.append(Cell(f"crash-in-replay/{nl}", (lambda I, nl=nl: h_crash_in_replay(I, nl, 6 * nl)),
+                        dict(lost=f"{nl} messages of A, a symbolic prefix delivered before the break", crash_point=f"symbolic journal slot 1..{6 * nl} while A services the ResendRequest",
+                             in_flight="frames written before the kill reach B or not (symbolic)"),
+                        goals=["done", "crashed", "replay-completed"], budget_s=2400))
     out.append(Cell("crash-in-receive", h_crash_in_receive, dict(crash_point="symbolic journal slot 1..8 during _process_message of an application message"),
                     goals=["done"], regions=["c09.crash_between_delivery_and_inbound_journal"], budget_s=2400))
     return out
@@ -272,4 +319,4 @@ ASSUMPTIONS = ["a restart = a new AsyncFIXConnection object (and Journaler) over
                "a kill is a Crash exception raised from a FakeSQLite slot or from the transport stub; uncommitted journal work is discarded",
                "two-endpoint histories use the macro-step schedules of C07"]
 STUBS = ["transport -> in-memory pipes / crashing writer", "sqlite3 -> FakeSQLite with crash slots", "clock fixed"]
-OUTSIDE = ["restart points inside multi-message recovery traffic", "more than 3 phases", "crashes of both endpoints at once"]
+OUTSIDE = ["restart points inside multi-message recovery traffic other than a kill of the endpoint servicing a ResendRequest", "more than 3 phases", "crashes of both endpoints at once"]
